@@ -31,6 +31,16 @@ type Reader struct {
 	current   uint32 // up to 4 bytes of input, valid bits MSB-aligned
 	validBits int    // number of valid bits in current
 
+	// srcErr is the error returned by the byte source (usually io.EOF).
+	// Looking ahead past the end of the input is harmless: the missing
+	// bits read as zeros (padBits counts how many of the valid bits are
+	// such padding).  Only consuming one of them ends the decoding.
+	srcErr  error
+	padBits int
+
+	// pos is the number of bits consumed so far (for EncodedByteAlign).
+	pos int64
+
 	line    []byte // Current line being decoded
 	refLine []byte // Reference line (previous line) for 2D decoding
 
@@ -137,6 +147,11 @@ func (r *Reader) Read(buf []byte) (n int, err error) {
 }
 
 func (r *Reader) decodeScanLine() {
+	if r.EncodedByteAlign {
+		// every encoded line (including its EOL, if any) starts on a byte
+		// boundary
+		r.alignToByte()
+	}
 	if r.K < 0 {
 		r.decodeG4ScanLine()
 	} else if r.K == 0 {
@@ -153,6 +168,10 @@ func (r *Reader) decodeG4ScanLine() {
 	// Group 4 fax uses pure 2D encoding for all lines
 	// with no EOL codes or line mode switching
 	r.decode2D()
+
+	if r.EncodedByteAlign {
+		r.alignToByte()
+	}
 
 	// Check for EOFB (End of Facsimile Block)
 	// EOFB in Group 4 is 24 bits: 000000000001000000000001
@@ -172,8 +191,13 @@ func (r *Reader) decodeG3ScanLine1D() {
 
 	numEOL := 0
 
-	for xpos < r.Columns && r.err == nil {
+	afterMakeUp := false
+	for (xpos < r.Columns || afterMakeUp) && r.err == nil {
+		// A run is zero or more make-up codes followed by one terminating
+		// code.  When a make-up code completes the row, the terminating
+		// code (for length 0) is still to come.
 		runLength, state := r.decodeRun(isWhite)
+		afterMakeUp = state == S_MakeUpW || state == S_MakeUpB || state == S_MakeUp
 
 		runLength = min(runLength, r.Columns-xpos)
 		r.fillRowBits(xpos, xpos+runLength, isWhite != r.BlackIs1)
@@ -207,6 +231,13 @@ func (r *Reader) decodeG3ScanLine2D() {
 	}
 
 	tp := r.readBits(1)
+	if tp == 1 && !r.IgnoreEndOfBlock && r.peekBits(12) == 1 {
+		// EOL+1 followed by another EOL: this is the return-to-control
+		// sequence (6 x EOL+1), not a row
+		r.line = r.line[:0]
+		r.err = io.EOF
+		return
+	}
 	if tp == 1 { // 1D mode
 		r.decodeG3ScanLine1D()
 	} else { // 2D mode
@@ -218,10 +249,12 @@ func (r *Reader) decodeG3ScanLine2D() {
 // followed by the terminating code.
 func (r *Reader) decodeFullRun(isWhite bool) int {
 	total := 0
-	// A well-formed run has at most a few makeup codes followed by a
-	// terminating code. Limit iterations to catch malformed data that
-	// produces endless makeup codes from buffered bits.
-	for range 64 {
+	// A well-formed run is a sequence of makeup codes followed by a
+	// terminating code.  Every makeup code stands for at least 64 pixels,
+	// so the check against the row width below bounds the loop also for
+	// malformed data (a fixed iteration limit would cut runs longer than
+	// 64 makeup codes, which the encoder writes for Columns > 163840).
+	for {
 		runLength, st := r.decodeRun(isWhite)
 		total += runLength
 		if st == S_TermW || st == S_TermB || st == S_EOL || r.err != nil {
@@ -367,8 +400,12 @@ func (r *Reader) peekBits(n int) uint32 {
 
 	for r.validBits < n {
 		var x byte
-		if r.err == nil { // after the first error, use an inifinite stream of zeros
-			x, r.err = r.r.ReadByte()
+		if r.srcErr == nil {
+			x, r.srcErr = r.r.ReadByte()
+		}
+		if r.srcErr != nil { // after the end of the input, use an infinite stream of zeros
+			x = 0
+			r.padBits += 8
 		}
 		r.current |= uint32(x) << (24 - r.validBits)
 		r.validBits += 8
@@ -382,6 +419,21 @@ func (r *Reader) consumeBits(n int) {
 	}
 	r.current <<= n
 	r.validBits -= n
+	r.pos += int64(n)
+	if r.validBits < r.padBits {
+		// bits beyond the end of the input have been used
+		r.padBits = r.validBits
+		if r.err == nil {
+			r.err = r.srcErr
+		}
+	}
+}
+
+// alignToByte skips the fill bits up to the next byte boundary.
+func (r *Reader) alignToByte() {
+	if k := int(r.pos % 8); k != 0 {
+		r.consumeBits(8 - k)
+	}
 }
 
 func (r *Reader) readBits(n int) uint32 {
